@@ -1,4 +1,5 @@
 import Qryn.Sql.Segs
+import Qryn.Gen.Params
 namespace Driver.C10
 open Qryn Qryn.Lex Qryn.Sql
 
@@ -13,6 +14,7 @@ def handle : List String → Option String
   | ["quote", h] => (ofHex h).map (fun b => hexOut (quote b))
   | ["like", h] => (ofHex h).map (fun b => hexOut (likeLiteral b))
   | ["lex", h] => (ofHex h).map (fun b => " ".intercalate ((lex b).map tokStr))
+  | ["c10params"] => some (";".intercalate (Gen.params.map (fun (f, h, k, n) => f ++ "|" ++ h ++ "|" ++ k ++ "|" ++ n)))
   | ["kinds", h] => (ofHex h).map (fun b => " ".intercalate ((kinds b).map tokStr))
   | _ => none
 end Driver.C10
